@@ -40,7 +40,7 @@ NAMES = ['a', 'b', 'c', 'pkg_x', 'mod_y', '_p', 'test__init__', 'run__main__', '
 def required_cells(tier):
     return ['resolve:found-module', 'resolve:found-package', 'resolve:absent', 'resolve:broken-chain',
             'resolve:module-and-package', 'roundtrip', 'split', 'import', 'resolve:main-file',
-            'import:failing-leaves-syspath', 'resolve:module-beside-plain-directory', 'import:root-already-on-syspath', 'resolve:extension-module', 'installation:file', 'installation:roundtrip']
+            'import:failing-leaves-syspath', 'resolve:module-beside-plain-directory', 'import:root-already-on-syspath', 'resolve:extension-module', 'installation:file', 'installation:roundtrip', 'history:resolve-after-deleted', 'history:resolve-after-created']
 
 
 def build(rng, root, uniq):
@@ -235,6 +235,35 @@ def check_tree(ctx, idx, seed):
                 ctx.violation('import-syspath', 'import_module_from_path(%r) changed sys.path: %r' % (got, d), case)
                 continue
             ctx.cell('import')
+        # ---- history: the tree changes between two resolutions in the same process (files appear and disappear);
+        # every answer must describe the tree as it is at that moment
+        if idx % 2 == 0:
+            names = all_names(root)
+            found = [n for n in names if oracle(root, n)[0] and not oracle(root, n)[0].endswith('__init__.py')]
+            absent = [n for n in names if oracle(root, n)[0] is None and '.' not in n]
+            steps = []
+            if found:
+                victim = rng.choice(found)
+                os.unlink(oracle(root, victim)[0])
+                steps.append(('deleted', victim))
+            if absent:
+                newn = rng.choice(absent)
+                if not os.path.exists(os.path.join(root, newn)):
+                    with open(os.path.join(root, newn + '.py'), 'w') as f:
+                        f.write('NAME = 1\n')
+                    steps.append(('created', newn))
+            for what, n in steps:
+                ctx.evaluation()
+                exp, cls = oracle(root, n)
+                got = util_import.modname_to_modpath(n, hide_init=False, sys_path=[root])
+                if (got and os.path.realpath(got)) != (exp and os.path.realpath(exp)):
+                    ctx.violation('resolve-after-change', 'after the file of %r was %s (same process, resolved before): '
+                                  'modname_to_modpath -> %r, the import system would load %r' % (n, what, got, exp),
+                                  dict(case, name=n), observed=got, expected=exp,
+                                  source_beside_extension=bool(got and exp and exp.endswith(tuple(M.EXTENSION_SUFFIXES)) and
+                                                               got.endswith('.py') and os.path.dirname(got) == os.path.dirname(exp)))
+                else:
+                    ctx.cell('history:resolve-after-' + what)
         if ctx.shard == 0:
             ctx.sample({'tree': listing, 'names_resolved': all_names(root)[:12]}, limit=2)
     finally:
@@ -313,7 +342,7 @@ def replay(case, ctx):
 def classify(v):
     # F19 by mechanism: an extension module and a source module of the same name in one directory; the
     # interpreter loads the extension, xdoctest names the source file
-    if v.get('mechanism') == 'resolve' and v.get('source_beside_extension') is True:
+    if v.get('mechanism') in ('resolve', 'resolve-after-change') and v.get('source_beside_extension') is True:
         return 'source-preferred-over-extension'
     return None
 
